@@ -63,7 +63,7 @@ func main() {
 		env := append(os.Environ(), "GOFLAGS=-mod=mod", "GOPROXY=off", "GOSUMDB=off", "GOTOOLCHAIN=local", "GOWORK=off")
 		ov, note := buildInlineOverlay(repoRoot(), env)
 		if note != nil {
-			fmt.Printf("helpers: %v\ninlined: %v\nskipped: %v\nremoved: %v\n", note.Helpers, note.Inlined, note.Skipped, note.Removed)
+			fmt.Printf("helpers: %v\ninlined: %v\nskipped: %v\nremoved: %v\nrenamed: %v\nmodelled: %v\nreshaped: %v\n", note.Helpers, note.Inlined, note.Skipped, note.Removed, note.Renamed, note.Modelled, note.Reshaped)
 		}
 		for f, b := range ov {
 			fmt.Printf("==== %s\n%s\n", f, b)
